@@ -132,7 +132,7 @@ fn scenarios() -> Vec<(String, String, bool)> {
     add("kmerminhash_slice_free", &["valid", "empty", "null"], false);
     add("kmerminhash_add_sequence", &["valid", "invalid", "invalid_force", "empty", "short", "protein_mh", "k0"], true);
     add("kmerminhash_add_protein", &["valid", "dna_mh", "short", "empty", "non_aa", "dayhoff", "hp"], true);
-    add("kmerminhash_seq_to_hashes", &["valid", "invalid", "invalid_force", "force_zeroes", "empty", "protein", "short", "k0"], true);
+    add("kmerminhash_seq_to_hashes", &["valid", "invalid", "invalid_force", "force_zeroes", "empty", "protein", "short", "k0", "k_minus_1", "exactly_k", "protein_short", "protein_k_third", "dayhoff_short", "translated_short"], true);
     add("kmerminhash_clear", &["valid", "empty", "abund"], true);
     add("kmerminhash_add_hash", &["valid", "zero", "max", "above_max_hash", "num_full", "abund", "abund_overflow"], true);
     add("kmerminhash_add_hash_with_abundance", &["valid", "zero_abund", "max_abund", "no_track", "repeat"], true);
@@ -335,6 +335,22 @@ fn gen(a: &Args) {
         o.op(st);
         o.op("clear");
         o.op("msg");
+    }
+    // two different failures with no clear in between: the later one must be reported
+    let fails: Vec<&str> = SEQ_FAIL.iter().chain(SEQ_PANIC.iter()).copied().collect();
+    for (i, a) in fails.iter().enumerate() {
+        let b = fails[(i + 7) % fails.len()];
+        let c = fails[(i + 13) % fails.len()];
+        o.case(&format!("seq pair{}", i));
+        o.op("init");
+        o.op(a);
+        o.op(b);
+        o.op("msg");
+        o.op("ok_merge");
+        o.op(c);
+        o.op(a);
+        o.op("clear");
+        o.op(b);
     }
     for _ in 0..nseq {
         o.case("seq");
@@ -1601,12 +1617,25 @@ unsafe fn call_mh(f: &str, cls: &str, r: &mut Rng) -> Option<Cmp> {
         }
         "seq_to_hashes" => {
             let p = match cls {
-                "protein" => P { hf: 2, ..a },
+                "protein" | "protein_short" | "protein_k_third" | "translated_short" => P { hf: 2, ..a },
+                "dayhoff_short" => P { hf: 3, ..a },
                 "k0" => P { k: 0, ..a },
                 _ => a,
             };
             let (m, n) = mh_pair(p, &[]);
             let (s, force, zeroes, is_prot): (Vec<u8>, bool, bool, bool) = match cls {
+                // boundary sizes around the k-mer length (21 bases / 7 residues)
+                "k_minus_1" => (dna(r, 20), false, false, false),
+                "exactly_k" => (dna(r, 21), false, false, false),
+                "protein_short" | "dayhoff_short" => {
+                    let n = r.range(7, 20) as usize;
+                    (prot(r, n), false, false, true)
+                }
+                "protein_k_third" => (prot(r, 7), false, false, true),
+                "translated_short" => {
+                    let n = r.range(0, 20) as usize;
+                    (dna(r, n), false, false, false)
+                }
                 "valid" | "k0" => (dna(r, 100), false, false, false),
                 "invalid" | "invalid_force" | "force_zeroes" => {
                     let mut s = dna(r, 100);
